@@ -287,7 +287,27 @@ fn misc(case: u64, rng: &mut Rng, rep: &mut Report, mode: Mode) {
             }
         }
         let e: EncodedSequence<Dna> = EncodedSequence::sample(&mut *rng, bg, l);
-        let _ = e.to_string().len() + total;
+        // data-dependent branches over every cell (a definedness checker flags uninitialised ones)
+        let mut odd = 0usize;
+        for i in 0..s.matrix().rows() {
+            for c in s.matrix()[i].iter() {
+                if (*c as usize) % 2 == 1 {
+                    odd += 1;
+                }
+            }
+        }
+        std::hint::black_box((e.to_string().len(), total, odd));
+        // the kernels load whole rows of a sampled sequence, padding included
+        let mut s = s;
+        let w = 3usize;
+        let small = scoring::<Dna>(&gen_matrix(rng, 5, w, MatKind::SmallInt)).clone();
+        s.configure(&small);
+        if mode != Mode::Miri {
+            let sc = Pipeline::<Dna, _>::avx2().unwrap().score(&small, &s);
+            std::hint::black_box((sc.threshold(0.0).len(), sc.max(), sc.argmax()));
+        }
+        let sc = Pipeline::<Dna, _>::generic().score(&small, &s);
+        std::hint::black_box(Pipeline::<Dna, _>::generic().threshold(&sc, 0.0).len());
         let bgp = Background::<Protein>::uniform();
         let lp = rng.range(1, 90);
         let sp: StripedSequence<Protein, U32> = StripedSequence::sample(&mut *rng, bgp, lp);
